@@ -41,11 +41,27 @@ func staticCases(keys []string) []caseT {
 			for _, typed := range []bool{false, true} {
 				cs = append(cs, caseT{Kind: "exit", Cfg: cfg, What: "method", Pkg: "log", Name: "New", Method: m, Typed: typed})
 			}
-			cs = append(cs, caseT{Kind: "exit", Cfg: cfg, What: "method", Pkg: "log", Name: "Default", Method: m})
+			for _, typed := range []bool{false, true} {
+				if typed && cfg.Unrestricted {
+					// Options.Unrestricted with the restricted table only: log.Default() is the host's *log.Logger while the
+					// name log.Logger still denotes the wrapper type of the table, the declaration does not compile
+					continue
+				}
+				cs = append(cs, caseT{Kind: "exit", Cfg: cfg, What: "method", Pkg: "log", Name: "Default", Method: m, Typed: typed})
+			}
 			cs = append(cs, caseT{Kind: "exit", Cfg: cfg, What: "method", Pkg: "log/slog", Name: "NewLogLogger", Method: m})
 		}
+		// flag sets: every error handling x how the set is made x what is wrong with the arguments; and the error
+		// handling given through (*FlagSet).Init on a zero set, a made set, the command line
 		for _, h := range []string{"ContinueOnError", "ExitOnError", "PanicOnError"} {
-			cs = append(cs, caseT{Kind: "exit", Cfg: cfg, What: "flagset", Name: h})
+			for _, bad := range []string{"", "value", "help"} {
+				for _, v := range []string{"", "fnvalue", "var", "conv", "typedvar"} {
+					cs = append(cs, caseT{Kind: "exit", Cfg: cfg, What: "flagset", Name: h, Variant: v, Bad: bad})
+				}
+				for _, v := range []string{"zero", "new", "cmdline"} {
+					cs = append(cs, caseT{Kind: "exit", Cfg: cfg, What: "flagsetinit", Name: h, Variant: v, Bad: bad})
+				}
+			}
 		}
 		// environment consulted by os functions
 		for _, n := range []string{"Getenv", "LookupEnv", "ExpandEnv", "Environ", "UserHomeDir", "UserCacheDir", "UserConfigDir", "TempDir"} {
@@ -71,7 +87,17 @@ func staticCases(keys []string) []caseT {
 		cs = append(cs, caseT{Kind: "io", Cfg: cfg, What: "fn", Pkg: "flag", Name: "Parse"})
 		cs = append(cs, caseT{Kind: "io", Cfg: cfg, What: "fn", Pkg: "flag", Name: "PrintDefaults"})
 		cs = append(cs, caseT{Kind: "io", Cfg: cfg, What: "fn", Pkg: "flag", Name: "Usage"})
-		cs = append(cs, caseT{Kind: "io", Cfg: cfg, What: "logger", Pkg: "log", Name: "Default"})
+		// log/slog: its default logger hands the records to the standard logger of package log
+		for _, n := range []string{"Info", "Warn", "Error", "InfoContext", "WarnContext", "ErrorContext", "Log", "Default", "With"} {
+			cs = append(cs, caseT{Kind: "io", Cfg: cfg, What: "fn", Pkg: "log/slog", Name: n})
+		}
+		for _, m := range []string{"", "Printf", "Println", "Output", "Panic", "Panicln", "Fatal", "Fatalf"} {
+			if cfg.Unrestricted && strings.HasPrefix(m, "Fatal") {
+				continue // ends the child (the host's own logger, by design of unrestricted mode): nothing to look at
+			}
+			cs = append(cs, caseT{Kind: "io", Cfg: cfg, What: "logger", Pkg: "log", Name: "Default", Method: m})
+		}
+		cs = append(cs, caseT{Kind: "io", Cfg: cfg, What: "logger", Pkg: "log", Name: "Default", Variant: "prefix"})
 	}
 	// imports: every package of the table in every form; the forbidden ones in every spelling, form and configuration
 	forms := []string{"plain", "named", "dot", "blank"}
@@ -80,7 +106,8 @@ func staticCases(keys []string) []caseT {
 			cs = append(cs, caseT{Kind: "import", Form: f, Path: k})
 		}
 	}
-	for _, p := range []string{"unsafe", "syscall", "os/exec", "unsafe/unsafe", "syscall/syscall", "exec/exec", "os/exec/exec", "no/such/pkg", "fmt/fmt", "os/os"} {
+	for _, p := range []string{"unsafe", "syscall", "os/exec", "unsafe/unsafe", "syscall/syscall", "exec/exec", "os/exec/exec", "no/such/pkg", "fmt/fmt", "os/os",
+		"./unsafe", "../syscall", "./os/exec", "./unsafe/unsafe", "./fmt", "x/x"} {
 		for _, f := range forms {
 			for _, sets := range [][]string{nil, {"unsafe"}, {"syscall"}, {"unrestricted"}, {"syscall", "unsafe", "unrestricted"}} {
 				cs = append(cs, caseT{Kind: "import", Form: f, Path: p, Sets: sets})
@@ -128,7 +155,7 @@ func main() {
 		return
 	}
 	run := common.NewRun("C13")
-	run.Res.Rule = "cases = (a) every package of the default table and ten spellings of forbidden/absent paths x four import forms x symbol-set configurations, (b) every process-exit entry point (os.Exit, log.Fatal*, Fatal*/Panic* of loggers from log.New, log.Default, slog.NewLogLogger, flag error handling) x configurations, run in child processes, (c) every redirected function/variable/builtin x stream configurations, (d) binding identity of 60 names after Use, (e) seeded sequences of 1..N environment operations over a small pool of colliding names with an Options.Env prefix, (f) values of interp.Options: Args nil / empty / one / many x Env nil / empty / entries x each stream nil / buffer / *os.File x restricted / unrestricted (full product of the pools, plus seeded random vectors), each observed by a script through os.Args, len(os.Args), flag.CommandLine (name, parse of os.Args[1:], output), flag.Parse+flag.Args, os.Environ, fmt.Println, log.Print, println, fmt.Scan, os.Std*, and BuildTags nil / empty / tags x GoPath empty / tree / inside the MapFS x SourcecodeFilesystem nil / MapFS observed through an import; non-trivial = (a) every case except a plain import of a package that is in the table, (b-d) every case, (e) a sequence with a mutation that a later operation observes, (f) every value except the all-defaults-with-buffers one; distinct = distinct protocol line"
+	run.Res.Rule = "cases = (a) every package of the default table and sixteen spellings (x, x/x, ./x, ../x) of forbidden/absent paths x four import forms x symbol-set configurations, (b) every process-exit entry point (os.Exit, log.Fatal*, Fatal*/Panic* of loggers from log.New, log.Default — also through a typed variable —, slog.NewLogLogger; flag sets: three error handlings x five ways to make the set x three kinds of offending arguments, and the handling given through (*FlagSet).Init on a zero set / a made set / the command line) x configurations, run in child processes, (c) every redirected function/variable/builtin, the logger of log.Default() through eight methods and through the package-level SetPrefix, nine log/slog functions x stream configurations, (d) binding identity of 60 names after Use, (e) seeded sequences of 1..N environment operations over a small pool of colliding names with an Options.Env prefix, (f) values of interp.Options: Args nil / empty / one / many x Env nil / empty / entries x each stream nil / buffer / *os.File x restricted / unrestricted (full product of the pools, plus seeded random vectors), each observed by a script through os.Args, len(os.Args), flag.CommandLine (name, usage line of a parse error, parse of os.Args[1:], output), flag.Parse+flag.Args, os.Environ, fmt.Println, log.Print, println, fmt.Scan, os.Std*, and BuildTags nil / empty / tags x GoPath empty / tree / inside the MapFS x SourcecodeFilesystem nil / MapFS observed through an import; non-trivial = (a) every case except a plain import of a package that is in the table, (b-d) every case, (e) a sequence with a mutation that a later operation observes, (f) every value except the all-defaults-with-buffers one; distinct = distinct protocol line"
 	defer run.Finish()
 	drv, err := common.StartDriver("C13")
 	if err != nil {
@@ -407,8 +434,21 @@ func hostNote(o *outcome) string {
 
 func implOf(c caseT, o *outcome) string { return c.impl(o) }
 
+// gatedByUnrestricted: the behaviour the case exercises is one that fixStdlib installs `if !interp.unrestricted` only
+// (the environment functions; since b69bc95 / 77e1d98 the flag.NewFlagSet override and the wrapper type of the default
+// logger): with Options.Unrestricted the property demands nothing there.
+func gatedByUnrestricted(c caseT) bool {
+	switch c.Kind {
+	case "envsrc", "env":
+		return true
+	case "exit":
+		return (c.What == "flagset" && c.Name == "ExitOnError") || (c.What == "method" && c.Pkg == "log" && c.Name == "Default")
+	}
+	return false
+}
+
 func refOf(c caseT) string {
-	if c.Cfg.Unrestricted && (c.Kind == "envsrc" || c.Kind == "env") {
+	if c.Cfg.Unrestricted && gatedByUnrestricted(c) {
 		return "any" // the property is about restricted mode
 	}
 	return c.ref()
